@@ -143,8 +143,21 @@ func drawFees(r *rand.Rand) *[3]uint64 {
 		return nil
 	}
 	f := [3]uint64{emit.U64(r), emit.U64(r), emit.U64(r)}
-	if r.Intn(6) == 0 {
+	switch r.Intn(8) {
+	case 0:
 		f = [3]uint64{100000, 100000, 100000} // the default, given explicitly
+	case 1:
+		f = [3]uint64{0, 0, 0} // present but all zero: NOT the default
+	case 2:
+		// every component drawn among 0 / the default / anything: partially zero, partially default
+		for i := range f {
+			switch r.Intn(3) {
+			case 0:
+				f[i] = 0
+			case 1:
+				f[i] = 100000
+			}
+		}
 	}
 	return &f
 }
@@ -187,11 +200,13 @@ func randASCII(r *rand.Rand, n int) []byte {
 }
 
 func drawEstimate(r *rand.Rand) uint64 {
-	switch r.Intn(5) {
+	switch r.Intn(6) {
 	case 0:
 		return 0
 	case 1:
 		return 300000
+	case 2:
+		return estSpecials[r.Intn(len(estSpecials))]
 	default:
 		return emit.U64(r)
 	}
@@ -216,6 +231,9 @@ func drawItem(r *rand.Rand, kind string) item {
 	case "logic", "deploy":
 		it.Contract = hexAddr(r, false)
 		it.Payload = randBytes(r, payloadLen(r))
+		if len(it.Payload) == 0 && r.Intn(2) == 0 {
+			it.Payload = nil // nil vs empty: the same value
+		}
 		it.Fees = drawFees(r)
 		switch r.Intn(5) {
 		case 0:
@@ -259,6 +277,11 @@ func init() {
 	evmtypes.RegisterInterfaces(ireg)
 	ireg.RegisterImplementations((*types.ConsensusMsg)(nil), &evmtypes.Message{})
 	cdc = codec.NewProtoCodec(ireg)
+	// BatchedTypeChecker unpacks the staged messages with the consensus module's own codec
+	mreg := types.ModuleCdc.InterfaceRegistry()
+	types.RegisterInterfaces(mreg)
+	evmtypes.RegisterInterfaces(mreg)
+	mreg.RegisterImplementations((*types.ConsensusMsg)(nil), &evmtypes.Message{})
 }
 
 func (it item) evmMessage() *evmtypes.Message {
@@ -610,7 +633,14 @@ func (it *item) perturb(r *rand.Rand, f string) {
 	case "relayer":
 		it.Relayer = flipAddr(r, strict)
 	case "estimate":
-		it.Est = flipU64(r, it.Est)
+		if r.Intn(2) == 0 {
+			it.Est = estSpecials[r.Intn(len(estSpecials))] // 0 <-> 300000 <-> neighbours
+		} else {
+			it.Est = flipU64(r, it.Est)
+		}
+	case "feeset":
+		fs := feeSpecials(r)
+		it.Fees = fs[r.Intn(len(fs))] // the whole fee set at once: nil / all-zero / exact default / partially zero
 	case "turnstone":
 		it.Turnstone = flipBytes(r, it.Turnstone)
 		for i := range it.Turnstone { // keep it printable (proto string)
@@ -741,7 +771,7 @@ type idEnv struct {
 	key    *storetypes.KVStoreKey
 }
 
-func newIDEnv(t *testing.T, nq int) *idEnv {
+func newIDEnv(t *testing.T, nq int, batched ...int) *idEnv {
 	db := tmdb.NewMemDB()
 	stateStore := store.NewCommitMultiStore(db, nopLogger(), metrics.NewNoOpMetrics())
 	storeKey := storetypes.NewKVStoreKey(types.StoreKey)
@@ -760,11 +790,16 @@ func newIDEnv(t *testing.T, nq int) *idEnv {
 	for i := 0; i < nq; i++ {
 		name := types.Queue(specs[i][1], "evm", specs[i][0])
 		names = append(names, name)
+		isBatched := false
+		for _, b := range batched {
+			isBatched = isBatched || b == i
+		}
 		qo = append(qo, consensus.ApplyOpts(nil,
 			consensus.WithQueueTypeName(name),
 			consensus.WithStaticTypeCheck(&evmtypes.Message{}),
 			consensus.WithChainInfo("evm", specs[i][0]),
 			consensus.WithVerifySignature(func([]byte, []byte, []byte) bool { return true }),
+			consensus.WithBatch(isBatched),
 		))
 	}
 	kreg.Add(queues{qo})
@@ -1011,8 +1046,12 @@ func signCaseWith(t *testing.T, run *emit.Run, r *rand.Rand, it item, fromCorpus
 			n = 2 + r.Intn(2)
 		}
 		var changed []string
+		pf := fs
+		if it.Kind == "logic" || it.Kind == "deploy" {
+			pf = append(append([]string{}, fs...), "feeset", "feeset")
+		}
 		for i := 0; i < n; i++ {
-			f := fs[r.Intn(len(fs))]
+			f := pf[r.Intn(len(pf))]
 			jt.perturb(r, f)
 		}
 		for _, f := range fs {
@@ -1053,7 +1092,12 @@ func TestCorr(t *testing.T) {
 		"the real GetBytesToSign / GetCheckpoint output must equal keccak of the harness's reconstructed pre-image, and the model must reproduce that pre-image byte for byte; " +
 		"then 3 single/multi-field perturbations per item must change the real signing bytes. " +
 		"id cases: 4-25 Put / Put-with-MsgIDToReplace / Remove ops (ids of the same queue, of another queue, unknown) over 2-4 queues of one real consensus keeper, " +
-		"counter started at 0, at a large value or just below 2^64. non-trivial = sign case with a non-empty dynamic part; id history with >=2 allocations, " +
+		"counter started at 0, at a large value or just below 2^64. " +
+		"second round: fee sets drawn among nil / all-zero / the exact default triple / partially zero, estimates among 0 / 300000 / neighbours, whole-fee-set perturbations, " +
+		"an exhaustive sweep over ordered pairs of these special values decided by the effective-value AND the raw-classification reading; " +
+		"delivered calls (relayable items): transaction input packed from the compass ABI JSON of the repository, accepted by the real VerifyAgainstTX, reproduced by the model and read back by the model decoder; " +
+		"histories over plain and batched queues (BatchQueue.Put / ProcessBatches, staging counter seeded too, sometimes > 100 staged messages); " +
+		"late replaces (after remove, through the queue of another chain) must be refused. non-trivial = sign case with a non-empty dynamic part; id history with >=2 allocations, " +
 		">=1 replace/remove that succeeded and >=1 rejected op")
 
 	// corpus first
@@ -1068,9 +1112,10 @@ func TestCorr(t *testing.T) {
 			Kind  string `json:"kind"`
 			A     *item  `json:"a"`
 			B     *item  `json:"b"`
-			NQ    int    `json:"nq"`
-			Start uint64 `json:"start"`
-			Ops   []idOp `json:"ops"`
+			NQ     int             `json:"nq"`
+			Start  uint64          `json:"start"`
+			BStart uint64          `json:"bstart"`
+			Ops    json.RawMessage `json:"ops"`
 		}
 		if err := json.Unmarshal(b, &rec); err != nil {
 			t.Fatalf("%s: %v", f, err)
@@ -1100,12 +1145,29 @@ func TestCorr(t *testing.T) {
 				}
 			}
 		case "ids":
-			runIDs(t, run, r, rec.Ops, rec.Start, rec.NQ)
+			var ops []idOp
+			if err := json.Unmarshal(rec.Ops, &ops); err != nil {
+				t.Fatalf("%s: %v", f, err)
+			}
+			runIDs(t, run, r, ops, rec.Start, rec.NQ)
+		case "idsb":
+			var ops []bOp
+			if err := json.Unmarshal(rec.Ops, &ops); err != nil {
+				t.Fatalf("%s: %v", f, err)
+			}
+			runIDsBatched(t, run, r, ops, rec.Start, rec.BStart, rec.NQ)
 		}
 	}
 
+	// second round: the pairs that are / are not indistinguishable by design, the relay gate, late replaces
+	pairSweep(t, run, r)
+	relayGate(t, run, r)
+	lifetimeSequences(t, run, r)
+
 	nIDs := run.N / 4
-	nSign := run.N - nIDs
+	nDeliver := run.N / 10
+	nIDsB := run.N / 15
+	nSign := run.N - nIDs - nDeliver - nIDsB
 	for i := 0; i < nSign; i++ {
 		kind := kinds[i%len(kinds)]
 		signCase(t, run, r, drawItem(r, kind), false)
@@ -1133,7 +1195,18 @@ func TestCorr(t *testing.T) {
 	for i := 0; i < nIDs; i++ {
 		runIDs(t, run, r, nil, 0, 0)
 	}
-	if err := run.Finish("Base.Abi Evm.SignFields Evm.SignBytes Evm.MsgIds Corr.C05", "C05.case", "C05.check"); err != nil {
+	// the delivered call: real VerifyAgainstTX + the compass ABI JSON vs the model's delivered_calldata / decoder
+	dk := []string{"logic", "deploy", "handover", "valset", "batch"}
+	for i := 0; i < nDeliver; i++ {
+		it := drawItem(r, dk[i%len(dk)])
+		makeRelayable(r, &it)
+		deliverCase(t, run, r, it)
+	}
+	// histories over batched queues
+	for i := 0; i < nIDsB; i++ {
+		runIDsBatched(t, run, r, nil, 0, 0, 0)
+	}
+	if err := run.Finish("Base.Abi Evm.SignFields Evm.SignBytes Evm.MsgIds Evm.MsgIdsBatch Corr.C05", "C05.case", "C05.check"); err != nil {
 		t.Fatal(err)
 	}
 }
